@@ -3,7 +3,9 @@ package p_xbinary
 import (
 	"encoding/binary"
 	"encoding/hex"
+	"os"
 	"runtime/debug"
+	"strconv"
 	"strings"
 	"testing"
 
@@ -29,6 +31,7 @@ func record15(c Case15, info Info15) {
 	}
 	st.Case(info.NonTrivial(), h, func() any { return c }, info.Classes()...)
 	st.AddExtra("short_destination_rejections_checked", info.ShortDst)
+	st.AddExtra("sink_kind_and_fill_level_writes_checked", info.SinkWrites)
 	st.AddExtra("items_checked", int64(info.Items))
 }
 
@@ -397,6 +400,19 @@ func record16(in []byte, info Info16) {
 	vstat.For("C16").Case(info.NonTrivial(), h, func() any { return NewCase16(in) }, info.Classes()...)
 }
 
+// record16c is record16 for a case in the compact form (large inputs are neither hashed byte by byte nor kept as hex).
+func record16c(c Case16, in []byte, info Info16) {
+	if c.Fill == 0 {
+		record16(in, info)
+		return
+	}
+	var h uint64
+	if info.NonTrivial() {
+		h = vstat.Hash(c)
+	}
+	vstat.For("C16").Case(info.NonTrivial(), h, func() any { return c }, info.Classes()...)
+}
+
 func TestC16Exhaustive(t *testing.T) {
 	st := vstat.For("C16")
 	shard, shards := vstat.Shard()
@@ -456,7 +472,35 @@ func TestC16Exhaustive(t *testing.T) {
 	for _, h := range Hostile16() {
 		one("hostile_constants", h)
 	}
-	parts := map[string]any{"shards": shards, "sweep_alphabet": len(sweep), "sweep_depth": sweepDepth, "group_alphabet": len(groupsAlpha), "group_depth": gDepth}
+	// (c) large records: every body length within 9 of 2^k, k = 8..18 (thorough ..22) - complete, cut short by one
+	// byte, followed by three more bytes, with an over-long prefix, and with a prefix that promises one byte more
+	maxPow := vstat.Pick(18, 22)
+	for k := 8; k <= maxPow; k++ {
+		for d := -9; d <= 9; d++ {
+			n := 1<<k + d
+			idx++
+			if idx%shards != shard {
+				continue
+			}
+			minimal, padded, plus1 := PutUvarint(nil, uint64(n), 0), PutUvarint(nil, uint64(n), 1), PutUvarint(nil, uint64(n+1), 0)
+			for _, c := range []Case16{
+				{In: hex.EncodeToString(minimal), Fill: n, Seed: uint64(n)},
+				{In: hex.EncodeToString(minimal), Fill: n - 1, Seed: uint64(n)},
+				{In: hex.EncodeToString(minimal), Fill: n + 3, Seed: uint64(n)},
+				{In: hex.EncodeToString(padded), Fill: n, Seed: uint64(n)},
+				{In: hex.EncodeToString(plus1), Fill: n, Seed: uint64(n)},
+			} {
+				in := c.Bytes()
+				info, v := Run16Bytes(in)
+				if v != nil {
+					st.Report(t, "TestC16Exhaustive", c, v)
+				}
+				record16c(c, in, info)
+				counts["large_records"]++
+			}
+		}
+	}
+	parts := map[string]any{"shards": shards, "sweep_alphabet": len(sweep), "sweep_depth": sweepDepth, "group_alphabet": len(groupsAlpha), "group_depth": gDepth, "large_record_max_pow2": maxPow}
 	for k, v := range counts {
 		parts[k] = v
 	}
@@ -469,6 +513,46 @@ var hostileVals = []uint64{^uint64(0), ^uint64(0) - 1, 1<<63 + 1, 1 << 63, 1<<63
 // genGrammar: prefix (varint in one of several shapes) followed by a body.
 func genGrammar(t *rapid.T) []byte {
 	body := rapid.SliceOfN(rapid.Byte(), 0, 20).Draw(t, "body")
+	return append(genPrefix(t, len(body)), body...)
+}
+
+// genBigLen draws a body length of the "large" class: within 9 of a power of two 2^9..2^maxPow, or anything up to 2^maxPow.
+func genBigLen(t *rapid.T, maxPow int) int {
+	if rapid.IntRange(0, 3).Draw(t, "bigLenClass") == 0 {
+		return rapid.IntRange(256, 1<<maxPow).Draw(t, "bigLen")
+	}
+	return 1<<rapid.IntRange(9, maxPow).Draw(t, "bigPow") + rapid.IntRange(-9, 9).Draw(t, "bigDelta")
+}
+
+// genGrammarCase: genGrammar, but one case in twelve has a large body (up to 256 KiB; the enumeration of
+// TestC16Exhaustive goes further) in the compact form of Case16: the same hostile / relative / over-long prefixes in front of a record of that size, sometimes cut short.
+func genGrammarCase(t *rapid.T) Case16 {
+	if rapid.IntRange(0, 11).Draw(t, "largeBody") != 0 {
+		return NewCase16(genGrammar(t))
+	}
+	n := genBigLen(t, 18)
+	var prefix []byte
+	if rapid.IntRange(0, 2).Draw(t, "exactPrefix") != 0 {
+		pad := 0
+		if rapid.IntRange(0, 5).Draw(t, "padded") == 0 {
+			pad = rapid.IntRange(1, 3).Draw(t, "pad")
+		}
+		prefix = PutUvarint(nil, uint64(n), pad)
+	} else {
+		prefix = genPrefix(t, n)
+	}
+	fill := n
+	switch rapid.IntRange(0, 5).Draw(t, "tail") {
+	case 0: // body cut short
+		fill = n - rapid.IntRange(1, min(n, 20)).Draw(t, "cut")
+	case 1: // something follows the record
+		fill = n + rapid.IntRange(1, 20).Draw(t, "more")
+	}
+	return Case16{In: hex.EncodeToString(prefix), Fill: fill, Seed: rapid.Uint64().Draw(t, "seed")}
+}
+
+// genPrefix: a length prefix in front of a body of bodyLen bytes.
+func genPrefix(t *rapid.T, bodyLen int) []byte {
 	var out []byte
 	switch rapid.IntRange(0, 9).Draw(t, "shape") {
 	case 0, 1, 2, 3, 4: // a well-formed number, possibly padded to an over-long form
@@ -477,7 +561,7 @@ func genGrammar(t *rapid.T) []byte {
 		case 0:
 			v = rapid.SampledFrom(hostileVals).Draw(t, "hostile")
 		case 1: // relative to what follows: len(buf)-idx +- 2
-			v = uint64(int64(len(body)) + int64(rapid.IntRange(-2, 2).Draw(t, "delta")))
+			v = uint64(int64(bodyLen) + int64(rapid.IntRange(-2, 2).Draw(t, "delta")))
 		case 2: // wraps the signed sum idx+ln back into range: 2^64 - small, 2^63 + small
 			v = uint64(rapid.IntRange(-24, 24).Draw(t, "wrap"))
 			if rapid.Bool().Draw(t, "half") {
@@ -514,18 +598,19 @@ func genGrammar(t *rapid.T) []byte {
 			out = append(out, rapid.SampledFrom([]byte{0x00, 0x01, 0x02, 0x7e, 0x7f}).Draw(t, "last"))
 		}
 	}
-	return append(out, body...)
+	return out
 }
 
 func TestC16RapidGrammar(t *testing.T) {
 	st := vstat.For("C16")
 	rapid.Check(t, func(t *rapid.T) {
-		in := genGrammar(t)
+		c := genGrammarCase(t)
+		in := c.Bytes()
 		info, v := Run16Bytes(in)
 		if v != nil {
-			st.Report(t, "TestC16RapidGrammar", NewCase16(in), v)
+			st.Report(t, "TestC16RapidGrammar", c, v)
 		}
-		record16(in, info)
+		record16c(c, in, info)
 	})
 }
 
@@ -671,7 +756,52 @@ func TestC15WritersExhaustive(t *testing.T) {
 		st.Report(t, "TestC15WritersExhaustive", c, v)
 		record15W(c, info)
 	})
-	st.SetExhaustive("writer_histories", map[string]any{"step_alphabet": len(alpha), "depth": depth, "lists": n, "shards": shards})
+	// *bufio.Writer destinations: every list of 1..2 items into one bufio.Writer of each size below that the harness
+	// has filled to EVERY level 0..size beforehand (the default size 4096: the levels 4096-12..4096), so the prefix of
+	// the first item meets every amount of free space and the second item whatever the first one left
+	bn, idx := int64(0), 0
+	for _, size := range []int{1, 2, 3, 4, 7, 10, 11, 16, 32, 4096} {
+		for fill := 0; fill <= size; fill++ {
+			if size == 4096 && fill < size-12 {
+				continue
+			}
+			dsts := []string{BufioDst(size, fill)}
+			enum.Lists(len(items), 2, 0, 1, func(ix []int) {
+				idx++
+				if len(ix) == 0 || idx%shards != shard {
+					return
+				}
+				seq := make([]WStep, len(ix))
+				for i, k := range ix {
+					seq[i] = WStep{Item: items[k]}
+				}
+				c := Case15W{Dsts: dsts, Seqs: [][]WStep{seq}}
+				info, v := Run15W(c)
+				st.Report(t, "TestC15WritersExhaustive", c, v)
+				record15W(c, info)
+				bn++
+			})
+		}
+	}
+	st.SetExhaustive("writer_histories", map[string]any{"step_alphabet": len(alpha), "depth": depth, "lists": n, "bufio_fill_level_lists": bn, "shards": shards})
+}
+
+// genDst draws a destination kind; a third are *bufio.Writer of a small drawn size (or the default 4096) pre-filled
+// to a drawn level.
+func genDst(t *rapid.T) string {
+	if rapid.IntRange(0, 2).Draw(t, "bufioDst") != 0 {
+		return rapid.SampledFrom(allDsts).Draw(t, "dstKind")
+	}
+	switch rapid.IntRange(0, 5).Draw(t, "bufioSizeClass") {
+	case 0:
+		return BufioDst(4096, 4096-rapid.IntRange(0, 24).Draw(t, "bufioFree"))
+	case 1:
+		size := rapid.IntRange(25, 300).Draw(t, "bufioSize")
+		return BufioDst(size, rapid.IntRange(0, size).Draw(t, "bufioFill"))
+	default:
+		size := rapid.IntRange(1, 24).Draw(t, "bufioSize")
+		return BufioDst(size, rapid.IntRange(0, size).Draw(t, "bufioFill"))
+	}
 }
 
 func genSmallItem(t *rapid.T) Item {
@@ -706,7 +836,7 @@ func genCase15W(t *rapid.T, minG, maxG int) Case15W {
 	nd := rapid.IntRange(1, 4).Draw(t, "dsts")
 	c := Case15W{}
 	for i := 0; i < nd; i++ {
-		c.Dsts = append(c.Dsts, rapid.SampledFrom(allDsts).Draw(t, "dstKind"))
+		c.Dsts = append(c.Dsts, genDst(t))
 	}
 	g := rapid.IntRange(minG, maxG).Draw(t, "goroutines")
 	for i := 0; i < g; i++ {
@@ -867,6 +997,129 @@ func TestC16RapidHistory(t *testing.T) {
 }
 
 // =============================================================================================
+// C16: concurrent decoders
+
+func record16C(c Case16C, info Info16C) {
+	var h uint64
+	if info.NonTrivial() {
+		h = c.Hash()
+	}
+	st := vstat.For("C16")
+	st.Case(info.NonTrivial(), h, func() any { return c }, info.Classes()...)
+	st.AddExtra("concurrent_decoder_calls_compared", int64(info.Calls))
+}
+
+// genConcurrent: 2..8 goroutines, 2..48 inputs in the compact form: a grammar prefix (hostile, relative to the body,
+// over-long, unterminated ...) or the exact length in front of a body of 0..40 (sometimes up to 5000, rarely up to
+// 128 KiB) bytes, or a grammar / mutated input as the one-shot units draw them.
+func genConcurrent(t *rapid.T) Case16C {
+	c := Case16C{G: rapid.IntRange(2, 8).Draw(t, "goroutines")}
+	n := rapid.IntRange(2, 48).Draw(t, "inputs")
+	large := 0
+	for i := 0; i < n; i++ {
+		switch k := rapid.IntRange(0, 9).Draw(t, "inputKind"); {
+		case k == 8:
+			c.Ins = append(c.Ins, NewCase16(genGrammar(t)))
+		case k == 9:
+			c.Ins = append(c.Ins, NewCase16(genMutated(t)))
+		default:
+			body := rapid.IntRange(0, 40).Draw(t, "bodyLen")
+			switch rapid.IntRange(0, 15).Draw(t, "bodyClass") {
+			case 0, 1:
+				body = rapid.IntRange(0, 5000).Draw(t, "bodyLen")
+			case 2:
+				if large < 2 {
+					body = genBigLen(t, 17)
+					large++
+				}
+			}
+			var prefix []byte
+			if k >= 6 {
+				prefix = PutUvarint(nil, uint64(body), 0)
+			} else {
+				prefix = genPrefix(t, body)
+			}
+			c.Ins = append(c.Ins, Case16{In: hex.EncodeToString(prefix), Fill: body, Seed: rapid.Uint64().Draw(t, "seed")})
+		}
+	}
+	c.Shared = rapid.IntRange(0, 3).Draw(t, "sameMemory") == 0
+	c.P1 = rapid.IntRange(0, 7).Draw(t, "gomaxprocs1") == 0
+	return c
+}
+
+// TestC16RapidConcurrent: the decoders called from several goroutines at once (run with -race in the thorough tier).
+func TestC16RapidConcurrent(t *testing.T) {
+	st := vstat.For("C16")
+	rapid.Check(t, func(t *rapid.T) {
+		c := genConcurrent(t)
+		info, v := Run16C(c)
+		if v != nil {
+			st.Report(t, "TestC16RapidConcurrent", c, v)
+		}
+		record16C(c, info)
+	})
+}
+
+// =============================================================================================
+// C15: byte strings of 256 MiB and more (5-byte prefix), beyond 1 GiB, 2 GiB and 4 GiB
+
+func record15Z(c Case15Z, info Info15Z) {
+	var h uint64
+	if info.NonTrivial() {
+		h = c.Hash()
+	}
+	vstat.For("C15").Case(info.NonTrivial(), h, func() any { return c }, info.Classes()...)
+}
+
+func peakRSSkB() int64 {
+	b, err := os.ReadFile("/proc/self/status")
+	if err != nil {
+		return -1
+	}
+	for _, l := range strings.Split(string(b), "\n") {
+		if strings.HasPrefix(l, "VmHWM:") {
+			f := strings.Fields(l)
+			if len(f) >= 2 {
+				n, _ := strconv.ParseInt(f[1], 10, 64)
+				return n
+			}
+		}
+	}
+	return -1
+}
+
+// TestC15HugeBodies: zero-filled values of the lengths 2^21, 2^28 (4/5-byte prefix), 2^29, 2^30 (thorough: 2^31, 2^32,
+// 2^32+2^30) with their neighbours, as bytes and as string, written into a counting sink and decoded in place.
+func TestC15HugeBodies(t *testing.T) {
+	st := vstat.For("C15")
+	var lens []int
+	for _, p := range vstat.Pick([]int{21, 28, 29, 30}, []int{21, 28, 29, 30, 31, 32}) {
+		for d := -2; d <= 2; d++ {
+			lens = append(lens, 1<<p+d)
+		}
+	}
+	lens = append(lens, 1<<30+1<<20+5)
+	if vstat.Thorough() {
+		lens = append(lens, 3<<30+7, 1<<32+1<<30+1)
+	}
+	maxLen := 0
+	for _, n := range lens {
+		maxLen = max(maxLen, n)
+	}
+	ReserveArena(maxLen + 32)
+	for _, n := range lens {
+		for _, k := range []string{KBytes, KString} {
+			c := Case15Z{K: k, L: n}
+			info, v := Run15Z(c)
+			st.Report(t, "TestC15HugeBodies", c, v)
+			record15Z(c, info)
+		}
+	}
+	st.SetExhaustive("huge_bodies", map[string]any{"lengths": lens, "kinds": 2, "arena_bytes": maxLen + 32})
+	st.SetExtra("huge_bodies_peak_resident_kB", peakRSSkB())
+}
+
+// =============================================================================================
 
 // TestReplay re-runs one saved case; the envelope's test name tells which case type it holds.
 func TestReplay(t *testing.T) {
@@ -887,6 +1140,22 @@ func TestReplay(t *testing.T) {
 		info, v := Run15W(c)
 		vstat.For("C15").Report(t, "TestReplay", c, v)
 		record15W(c, info)
+	case strings.Contains(env.Test, "HugeBodies"):
+		var c Case15Z
+		if _, err := vstat.LoadReplay(p, &c); err != nil {
+			t.Fatalf("cannot load %s: %v", p, err)
+		}
+		info, v := Run15Z(c)
+		vstat.For("C15").Report(t, "TestReplay", c, v)
+		record15Z(c, info)
+	case strings.Contains(env.Test, "C16RapidConcurrent"):
+		var c Case16C
+		if _, err := vstat.LoadReplay(p, &c); err != nil {
+			t.Fatalf("cannot load %s: %v", p, err)
+		}
+		info, v := Run16C(c)
+		vstat.For("C16").Report(t, "TestReplay", c, v)
+		record16C(c, info)
 	case strings.Contains(env.Test, "History"):
 		var c Case16H
 		if _, err := vstat.LoadReplay(p, &c); err != nil {
